@@ -289,6 +289,7 @@ Proof.
       rewrite Hc in Hto. discriminate.
     + apply smem_In in Hfrom. apply in_map_iff in Hfrom. destruct Hfrom as [r1 [E1 Hr1]].
       pose proof (find_none _ _ E r1 Hr1) as Hc. simpl in Hc. rewrite E1, String.eqb_refl in Hc. discriminate.
+  - destruct cs as [|c [|c2 r]]; reflexivity.
 Qed.
 
 (* ================================================================== list helpers *)
